@@ -22,7 +22,8 @@ fn target(u: &mut Unstructured, ietf: bool) -> Target {
 }
 
 fn lenspec(u: &mut Unstructured) -> LenSpec {
-    match u.int_in_range(0u8..=5).unwrap_or(0) {
+    match u.int_in_range(0u8..=30).unwrap_or(0) % 7 {
+        6 => LenSpec::Big(u.int_in_range(0u16..=4096).unwrap_or(0)),
         0 | 1 | 2 => LenSpec::Fixed(u.int_in_range(0u16..=1100).unwrap_or(0)),
         3 => LenSpec::ToBlockEnd(u.int_in_range(-2i8..=2).unwrap_or(0)),
         _ => LenSpec::ToStreamEnd(u.int_in_range(-2i8..=2).unwrap_or(0)),
